@@ -247,6 +247,10 @@ func init() {
 		}
 		return ""
 	}
+	{ // concurrent callers / readers (concurrent.go), after the sequential phases
+		conc, run := concPhase(p, concJSON), p.Run
+		p.Run = func(c *mon.Ctx) { run(c); conc(c) }
+	}
 	mon.Register(p)
 }
 
